@@ -82,6 +82,10 @@ def run(ctx):
     ctx.notes['deviations_detected_by'] = vacuity(ctx, 'Programs({"L", "P"}, 1, 2, 2, {FALSE})')
     ctx.notes['programs_enumerated'] = len(progs)
     sel = select(ctx, progs, 450 if tier == 'quick' else 12000)
+    # edges whose template reads a second variable given as a path (w * (source - x_ref))
+    refs = tlc_programs(ctx, 'ref-edges', 'RefProgs({3}, {<<"L">>, <<"L", "S">>})' if tier == 'quick' else 'RefProgs({3, 4}, {<<"L">>, <<"L", "S">>})', workers=8)
+    random.Random(ctx.seed + 1).shuffle(refs)
+    sel += refs[:150 if tier == 'quick' else 4000]
     jobs = []
     skipped = dict(d42=0, d43=0)
     for k, p in enumerate(sel):
@@ -90,6 +94,8 @@ def run(ctx):
                 skipped['d42'] += 1; continue
             if not v['vec'] and p['d43'] and ctx.open_finding('D43'):
                 skipped['d43'] += 1; continue
+            if v['vec'] and p.get('d61') and ctx.open_finding('D61'):
+                skipped['d61'] = skipped.get('d61', 0) + 1; continue
             jobs.append(dict(p=p, variant=v))
     ctx.notes['variants_excluded_by_known_findings'] = skipped
     outs = run_cases(job, jobs, timeout=300)
@@ -126,6 +132,14 @@ PINNED = [
 ]
 
 
+PINNED.append(
+    ('D61', dict(prog=dict(nodes=_nodes('L', 'S', 'L'), edges=[dict(s=1, sv='x', t=2, tv='u', w=9, tm=False, ref=2),
+                                                                dict(s=1, sv='x', t=2, tv='u', w=5, tm=False, ref=1)]),
+                 sv=[dict(n=1, v='x'), dict(n=2, v='x'), dict(n=2, v='q'), dict(n=3, v='x')]), dict(vec=True, hier=0),
+     [dict(coef=[-1.0, 0.0, 0.0, 0.0], const=88.0), dict(coef=[9.0, -11.0, 0.0, 0.0], const=94.0),
+      dict(coef=[0.0, 0.0, -3.0, 0.0], const=0.0), dict(coef=[0.0, 0.0, 0.0, -3.0], const=114.0)], 'wrong_coef'))
+
+
 def pinned(ctx):
     todo = [p for p in PINNED if ctx.open_finding(p[0])]
     outs = run_cases(job, [dict(p=p[1], variant=p[2]) for p in todo], timeout=300)
@@ -135,6 +149,8 @@ def pinned(ctx):
             ctx.notes.setdefault('pinned_no_longer_failing', []).append(fid)
         elif how == 'IndexError' and o.get('exc') == 'IndexError':
             ctx.known_hit(fid, dict(case=p['prog'], observed=o.get('msg')))
+        elif how == 'wrong_coef' and 'field' in o and o.get('affine') and [r['const'] for r in o['field']] == [r['const'] for r in exp]:
+            ctx.known_hit(fid, dict(case=p['prog'], observed=o['field']))     # silent: constants right, a coefficient wrong
         elif how == 'wrong_const' and 'field' in o and [r['coef'] for r in o['field']] == [r['coef'] for r in exp]:
             ctx.known_hit(fid, dict(case=p['prog'], observed=o['field']))     # coefficients right, only a default constant wrong
         else:
